@@ -305,19 +305,24 @@ def frames_and_lifetime(rec, hub, U, letters, rng, exhaustive):
     mean_full = rng.uniform(2.0, 9.0, size=dims.shape)
     std_full = mean_full * rng.uniform(0.2, 0.6, size=dims.shape)
     for cls_name, names in (("NormalLifetime", ("mean", "std")), ("LogNormalLifetime", ("mean", "std")), ("WeibullLifetime", ("weibull_shape", "weibull_scale")), ("FixedLifetime", ("mean",))):
-        ref = None
-        for p in itertools.permutations(range(len(pl))):
-            pd_ = fd.DimensionSet(dim_list=[pl[i] for i in p])
-            kw = {}
-            for n, v in zip(names, (mean_full if names[0] != "weibull_shape" else std_full / mean_full * 5 + 0.5, std_full if names[0] != "weibull_shape" else mean_full)):
-                kw[n] = fd.FlodymArray(dims=pd_, values=np.ascontiguousarray(np.transpose(v, p)))
-            lm = getattr(fd, cls_name)(dims=dims, time_letter="t", **kw)
-            sf = np.array(lm.sf)
-            rec.event(MF, sig=f"lifetime|{cls_name}|{p}", cls=f"lifetime-params|{cls_name}")
-            if ref is None:
-                ref = sf
-            elif not np.array_equal(ref, sf):
-                rec.violation(MF, f"lifetime:survival-table-depends-on-parameter-storage-order:{cls_name}", {"order": list(p), "max_diff": float(np.max(np.abs(ref - sf)))})
+        # parameters over every non-empty SUBSET of the model's dimensions (a time-independent parameter over all the other dimensions,
+        # one over the time dimension and one label dimension, ...) in every storage order
+        for keep in [c_ for r_ in range(len(pl), 0, -1) for c_ in itertools.combinations(range(len(pl)), r_)]:
+            ref = None
+            drop = tuple(ax for ax in range(len(pl)) if ax not in keep)
+            for p in itertools.permutations(range(len(keep))):
+                pd_ = fd.DimensionSet(dim_list=[pl[keep[i]] for i in p])
+                kw = {}
+                for n, v in zip(names, (mean_full if names[0] != "weibull_shape" else std_full / mean_full * 5 + 0.5, std_full if names[0] != "weibull_shape" else mean_full)):
+                    v_k = np.mean(v, axis=drop) if drop else v
+                    kw[n] = fd.FlodymArray(dims=pd_, values=np.ascontiguousarray(np.transpose(v_k, p)))
+                lm = getattr(fd, cls_name)(dims=dims, time_letter="t", **kw)
+                sf = np.array(lm.sf)
+                rec.event(MF, sig=f"lifetime|{cls_name}|{keep}|{p}", cls=f"lifetime-params|{cls_name}|{len(keep)} of {len(pl)} dims{'' if 0 in keep else ', time-independent'}")
+                if ref is None:
+                    ref = sf
+                elif not np.array_equal(ref, sf):
+                    rec.violation(MF, f"lifetime:survival-table-depends-on-parameter-storage-order:{cls_name}", {"parameter_dims": [pl[keep[i]].letter for i in p], "model_dims": [d_.letter for d_ in pl], "max_diff": float(np.max(np.abs(ref - sf)))})
 
 
 def plan(tier):
